@@ -469,6 +469,13 @@ pub fn check_with(c: &Case, drift_open: bool) -> CheckResult {
     o.class_if(a255 < 255.0, "alpha<1");
     o.class_if(c.w.max(c.h) >= 600, "long-strip-with-slowly-varying-linear-gradient");
     o.class_if(c.own.is_some(), "own-transform-in-the-variant");
+    if let SrcSpec::Linear { x0, y0, x1, y1, .. } = &c.src {
+        if c.own.is_none() && c.ctm == IDENT {
+            let (dx, dy) = ((x1 - x0) as f64, (y1 - y0) as f64);
+            let t0 = -(*x0 as f64 * dx + *y0 as f64 * dy) / (dx * dx + dy * dy);
+            o.class_if(t0.abs() >= 256.0, "linear-gradient-starting-256-or-more-of-its-lengths-away");
+        }
+    }
     if let SrcSpec::TwoCircle { r1, .. } = &c.src {
         o.class_if(*r1 == 0.0, "twocircle:focal-point");
     }
@@ -543,9 +550,29 @@ pub fn strategy(ctx: &Ctx) -> BoxedStrategy<Case> {
             // thousands of user units from the user-space origin along the squeezed axis (a chart with very
             // different units on its axes, scrolled far)
             let aniso = prop::option::weighted(0.08, (prop::sample::select(vec![10.0f32, 16.0, 25.0, 40.0]), any::<bool>(), any::<bool>(), 0.0f32..1.0, 0.5f32..2.0));
-            (Just((w, h)), src, alpha, prop_oneof![2 => Just(IDENT), 3 => xf_invertible(6.0)], zoom, own, aniso)
+            // periods away: a short linear gradient (1.5..6 px long) whose start lies 256..1200 of its own lengths from
+            // the surface along its direction (a fine repeating or reflecting hatch anchored at a far corner of the
+            // drawing), so that the parameter at the device origin is in the hundreds, of either sign and parity
+            let periods = prop::option::weighted(0.1, (256i32..=1200, any::<bool>(), 1.5f32..6.0));
+            (Just((w, h)), src, alpha, prop_oneof![2 => Just(IDENT), 3 => xf_invertible(6.0)], zoom, own, (aniso, periods))
         })
-        .prop_map(|((w, h), mut src, alpha, mut ctm, mut z, mut own, aniso)| {
+        .prop_map(|((w, h), mut src, alpha, mut ctm, mut z, mut own, (aniso, periods))| {
+            if let (Some((n, neg, e)), true, SrcSpec::Linear { x0, y0, x1, y1, .. }) = (periods, w.max(h) < 600 && aniso.is_none(), &mut src) {
+                let (dx, dy) = ((*x1 - *x0) as f64, (*y1 - *y0) as f64);
+                let l = (dx * dx + dy * dy).sqrt();
+                if l > 0.5 {
+                    let (ux, uy) = (dx / l, dy / l);
+                    // at most 3800 px away
+                    let n = (n as f64).min((3800.0 / e as f64).floor()) * if neg { -1.0 } else { 1.0 };
+                    *x0 = (*x0 as f64 + n * e as f64 * ux) as f32;
+                    *y0 = (*y0 as f64 + n * e as f64 * uy) as f32;
+                    *x1 = (*x0 as f64 + e as f64 * ux) as f32;
+                    *y1 = (*y0 as f64 + e as f64 * uy) as f32;
+                    ctm = IDENT;
+                    z = 1.0;
+                    own = None;
+                }
+            }
             if let Some((r, x_stretched, neg, f, k)) = aniso {
                 // user -> device: scale (k r, k) or (k, k r), then a translation that brings the far place back.
                 // The place is `d` device pixels from the user-space origin (d <= 3900: inside the working range)
@@ -619,10 +646,10 @@ pub fn property(ctx: &Ctx) -> Property {
     let drift_open = ctx.excluded(DRIFT_KEY);
     Property {
         id: "C12",
-        rule: "cases: linear (extent >= 1 px), radial (r >= 1), two-circle (first circle strictly inside the second) and sweep gradients built with the Source::new_* constructors, a quarter of them with a further invertible transform of their own composed into the public Source variant by hand (elliptical radial gradients, sheared sweeps; the oracle maps the pixel centre through the inverse CTM and then through that transform); 1-5 stops at strictly increasing positions (gaps >= 0.02, ends not necessarily 0/1) with random unpremultiplied colours or probe ramps; Pad/Repeat/Reflect; global alpha; identity or any invertible CTM (one in twelve anisotropic, one axis stretched 10..40 times more than the other, looking at a place 1000..3900 device px from the user-space origin along the other axis), optionally with user space zoomed (units 256, 4096 or 65536 times smaller, or 64 times larger, under a correspondingly scaled CTM); 4..24 px surfaces, rendered with a full-surface Src fill (in half of the cases after an empty layer group or a clear under a clip that come between set_transform and the draw; and again, Src and SrcOver, through a pixel-aligned clip path that cuts off the first columns: same colours inside, nothing outside; and once more with SrcOver into a layer group pushed under an offset clip rectangle, whose origin differs from the surface's). Oracle: f64 parameter t per pixel centre (through the inverse CTM) by the statement's definitions, colour = piecewise-linear interpolation of the unpremultiplied stops after the spread map, premultiplied and scaled by alpha; every channel must lie within 4/255 of the range that colour takes for t within 3/255 (+|t|/255 for two-circle and sweep) of the pixel's t; Pad pixels beyond an end all show one identical colour; two-circle pixels without admissible circle are transparent. Non-trivial: >=3 distinct colours on the surface and t spanning >= 0.25; distinct by hash of the case.",
+        rule: "cases: linear (extent >= 1 px), radial (r >= 1), two-circle (first circle strictly inside the second) and sweep gradients built with the Source::new_* constructors, a quarter of them with a further invertible transform of their own composed into the public Source variant by hand (elliptical radial gradients, sheared sweeps; the oracle maps the pixel centre through the inverse CTM and then through that transform); 1-5 stops at strictly increasing positions (gaps >= 0.02, ends not necessarily 0/1) with random unpremultiplied colours or probe ramps; Pad/Repeat/Reflect; global alpha; one linear gradient in ten only 1.5..6 px long and starting 256..1200 of its own lengths (at most 3800 px) from the surface, so that the parameter on the surface is in the hundreds; identity or any invertible CTM (one in twelve anisotropic, one axis stretched 10..40 times more than the other, looking at a place 1000..3900 device px from the user-space origin along the other axis), optionally with user space zoomed (units 256, 4096 or 65536 times smaller, or 64 times larger, under a correspondingly scaled CTM); 4..24 px surfaces, rendered with a full-surface Src fill (in half of the cases after an empty layer group or a clear under a clip that come between set_transform and the draw; and again, Src and SrcOver, through a pixel-aligned clip path that cuts off the first columns: same colours inside, nothing outside; and once more with SrcOver into a layer group pushed under an offset clip rectangle, whose origin differs from the surface's). Oracle: f64 parameter t per pixel centre (through the inverse CTM) by the statement's definitions, colour = piecewise-linear interpolation of the unpremultiplied stops after the spread map, premultiplied and scaled by alpha; every channel must lie within 4/255 of the range that colour takes for t within 3/255 (+|t|/255 for two-circle and sweep) of the pixel's t; Pad pixels beyond an end all show one identical colour; two-circle pixels without admissible circle are transparent. Non-trivial: >=3 distinct colours on the surface and t spanning >= 0.25; distinct by hash of the case.",
         assumptions: vec!["sweep pixels within 1.5 px of the centre or within 0.75 px of the angle-0 ray are not judged (angle discontinuity inside the pixel)"],
         parts: vec![part("render", 60_000, 1_000_000, move || strategy(&c), move |k| check_with(k, drift_open))],
-        min_class_fraction: vec![("render", "src:linear", 0.15), ("render", "src:radial", 0.15), ("render", "src:twocircle", 0.15), ("render", "src:sweep", 0.15), ("render", "spread:reflect", 0.2), ("render", "t>1-seen", 0.3), ("render", "t<0-seen", 0.1), ("render", "linear:horizontal-right-to-left", 0.005), ("render", "linear:vertical", 0.01), ("render", "twocircle:focal-point", 0.02), ("render", "twocircle:centres-share-one-coordinate", 0.03), ("render", "ctm-scale>=1000", 0.05), ("render", "own-transform-in-the-variant", 0.1), ("render", "anisotropic-ctm-far-from-the-user-origin", 0.04)],
+        min_class_fraction: vec![("render", "src:linear", 0.15), ("render", "src:radial", 0.15), ("render", "src:twocircle", 0.15), ("render", "src:sweep", 0.15), ("render", "spread:reflect", 0.2), ("render", "t>1-seen", 0.3), ("render", "t<0-seen", 0.1), ("render", "linear:horizontal-right-to-left", 0.005), ("render", "linear:vertical", 0.01), ("render", "twocircle:focal-point", 0.02), ("render", "twocircle:centres-share-one-coordinate", 0.03), ("render", "ctm-scale>=1000", 0.05), ("render", "own-transform-in-the-variant", 0.1), ("render", "anisotropic-ctm-far-from-the-user-origin", 0.04), ("render", "linear-gradient-starting-256-or-more-of-its-lengths-away", 0.01)],
         panic_is_violation: false,
     }
 }
